@@ -50,6 +50,7 @@ def ob_timelock(ctx):
     W2.add_wait('r', user2, hr['id'])
     W2.st.add(W2.hub_balance >= W2.prev_hub_balance)
     W2.install()
+    raw_scenario(W2, 'execute', W2.msg('WithdrawUnbonded'), user2, querier=hub_querier_template(W2))
     m = 0
     for st, res in W2.execute(W2.msg('WithdrawUnbonded'), user2):
         if not is_ok(res):
@@ -57,10 +58,40 @@ def ob_timelock(ctx):
         m += 1
         writes = [ev for ev in st.log if ev[0] == 'write' and ev[2] == ('P', b'history_map')]
         if writes:
-            ctx.violation('a batch that has not matured is rewritten by a withdrawal', 'timelock:immature_written', {})
+            ctx.infeasible(st, 'a batch that has not matured is rewritten by a withdrawal', 'timelock:immature_written', W2.mv)
         left = [e for e in st.stores[HUB].entries if e.fam == ('B', b'v2_wait') and e.present is not False]
         ctx.require(st, z3.BoolVal(len(left) == 1), 'the claim on the immature batch survives; only the released one is paid', 'timelock:immature_claim', W2.mv)
         ctx.witness('one second before maturity', st, [h2['time'] + W2.unbonding == W2.now + 1], W2.mv)
+    # a matured and a younger, immature batch pending together: only the matured one is released and paid
+    W3 = HubWorld(ctx, n_validators=1, n_delegations=1)
+    W3.I.contracts_on = set(CONTRACTS)
+    g1 = W3.add_history('1', released=False)
+    g2 = W3.add_history('2', released=False)
+    W3.st.add(g1['id'] == W3.last_processed + 1, g2['id'] == W3.last_processed + 2, W3.batch_id == W3.last_processed + 3)
+    W3.st.add(g1['time'] <= g2['time'], g2['time'] <= W3.now, g1['time'] + W3.unbonding <= W3.now, g2['time'] + W3.unbonding > W3.now)
+    for g in (g1, g2):
+        W3.st.add(g['bsei_wr'] <= 10 * E, g['stsei_wr'] <= 10 * E)
+    user3 = W3.I.S('user_a')
+    W3.add_wait('1', user3, g1['id'])
+    W3.add_wait('2', user3, g2['id'])
+    W3.st.add(W3.hub_balance >= W3.prev_hub_balance)
+    W3.install()
+    raw_scenario(W3, 'execute', W3.msg('WithdrawUnbonded'), user3, querier=hub_querier_template(W3))
+    k3 = 0
+    for st, res in W3.execute(W3.msg('WithdrawUnbonded'), user3):
+        if not is_ok(res):
+            continue
+        k3 += 1
+        for ev in st.log:
+            if ev[0] == 'write' and ev[2] == ('P', b'history_map'):
+                ctx.require(st, ev[3][0][1] != g2['id'], 'a younger batch that has not matured is not released together with a matured one', 'timelock:younger_released', W3.mv)
+        left = [e for e in st.stores[HUB].entries if e.fam == ('B', b'v2_wait') and e.present is not False]
+        ctx.require(st, z3.BoolVal(len(left) == 1), 'the claim on the immature batch survives; only the matured one is paid', 'timelock:younger_claim', W3.mv)
+        e3 = effects(W3, st, res)
+        ctx.require(st, e3.post['last_processed'] == W3.last_processed + 1, 'last processed batch advances over the matured batch only', 'timelock:younger_last', W3.mv)
+        ctx.witness('matured + immature pending together', st, [g2['time'] + W3.unbonding == W3.now + 1], W3.mv, expect='ok')
+    ctx.need_witness('two pending batches Ok path', k3 > 0)
+    ctx.expect_witness('matured + immature region', 'matured + immature pending together')
     ctx.need_witness('matured Ok path', n > 0)
     ctx.need_witness('immature world Ok path (released claim paid)', m > 0)
     ctx.expect_witness('boundary second reachable', 'exactly on the boundary second')
@@ -172,6 +203,16 @@ def ORACLE(v, scn, out):
         for i, h in post['hist'].items():
             if h['released'] and i in pre['hist'] and not pre['hist'][i]['released'] and int(h['time']) + int(params['unbonding_period']) > now:
                 bad.append('batch %d released %d s before the unbonding period elapsed' % (i, int(h['time']) + int(params['unbonding_period']) - now))
+        immature = [i for i, h in pre['hist'].items() if not h['released'] and int(h['time']) + int(params['unbonding_period']) > now]
+        for i in immature:
+            if post['hist'].get(i) != pre['hist'][i]:
+                bad.append('immature batch %d rewritten' % i)
+            for k_ in pre['wait']:
+                if k_[1] == i and k_ not in post['wait']:
+                    bad.append('claim of %s on immature batch %d removed' % k_)
+        mature = [i for i, h in pre['hist'].items() if not h['released'] and int(h['time']) + int(params['unbonding_period']) <= now]
+        if key.endswith('younger_last') and int(st1['last_processed_batch']) > (max(mature) if mature else int(st0['last_processed_batch'])):
+            bad.append('last_processed_batch jumps to %s past the matured batches %r' % (st1['last_processed_batch'], mature))
         return bad
     if key.startswith('epoch_'):
         what = key.split(':')[1]
@@ -192,8 +233,21 @@ def ORACLE(v, scn, out):
             got = sum(int(sm['msg']['staking']['undelegate']['amount']['amount']) for sm in res['ok']['messages'] if 'staking' in sm['msg'] and 'undelegate' in sm['msg']['staking'])
             if got != want:
                 bad.append('undelegated %d, requests x recorded rates = %d' % (got, want))
-        if what in ('entry', 'once', 'still', 'old'):
-            return None
+        if what == 'entry' and new:
+            h = post['hist'][new[0]]
+            if int(h['time']) != now or h['released']:
+                bad.append('new history entry has time %s (now %d), released %r' % (h['time'], now, h['released']))
+        if what == 'once' and len(new) > 1:
+            bad.append('%d history entries written' % len(new))
+        if what == 'still' and not new:
+            cb0, cb1 = pre['items'][b'\x00\x0dcurrent_batch'], post['items'][b'\x00\x0dcurrent_batch']
+            und = [sm for sm in res['ok']['messages'] if 'staking' in sm['msg']]
+            if st1['last_unbonded_time'] != st0['last_unbonded_time'] or cb0['id'] != cb1['id'] or und:
+                bad.append('lifecycle moved without undelegation')
+        if what == 'old':
+            for i, h in pre['hist'].items():
+                if post['hist'].get(i) != h:
+                    bad.append('older batch %d rewritten by an unbond' % i)
         return bad
     if key.startswith('immutable:'):
         for i, h in pre['hist'].items():
